@@ -345,14 +345,50 @@ func c08R3(p *engine.Prog, r *engine.Report, af *ssa.Function) {
 	r.Check(okW, "C08-R3", "applyFork|WriteCertificate(bundle.Block.Hash(), bundle.Cert) after AddBlock==nil", p.InstrPos(wc[0]), "same bundle, after the block", "certificate not stored with its block")
 	okEvery := hdr != nil
 	if hdr != nil {
-		reach := engine.ReachAvoiding(af, hdr, nil, map[*ssa.BasicBlock]bool{wc[0].Block(): true})
+		// an iteration may skip the write only because this bundle carries no certificate: cut the
+		// "absent" edge of a presence test (Empty()/nil) of the very certificate that is written
+		cut := map[engine.Edge]bool{}
+		certPath := renderVal(wc[0].Call.Args[2], 0)
+		for _, i := range engine.Ifs(af) {
+			cnd, neg := stripNot(i.Cond)
+			if cc, ok := cnd.(*ssa.Call); ok && engine.CallNameIs(cc, "Empty") {
+				if a := engine.CallArgs(cc); len(a) > 0 && renderVal(a[0], 0) == certPath {
+					absent := 0 // Empty() == true
+					if neg {
+						absent = 1
+					}
+					cut[engine.Edge{From: i.Block(), Succ: absent}] = true
+				}
+			}
+			if x, y, isEq, ok := eqCond(cnd); ok {
+				for _, pr := range [][2]ssa.Value{{x, y}, {y, x}} {
+					if k, isK := pr[1].(*ssa.Const); isK && k.IsNil() && renderVal(pr[0], 0) == certPath {
+						absent := 1
+						if isEq != neg {
+							absent = 0
+						}
+						cut[engine.Edge{From: i.Block(), Succ: absent}] = true
+					}
+				}
+			}
+		}
+		reach := engine.ReachAvoiding(af, hdr, cut, map[*ssa.BasicBlock]bool{wc[0].Block(): true})
 		for _, pr := range hdr.Preds {
 			if hdr.Dominates(pr) && pr != wc[0].Block() && reach[pr] {
-				okEvery = false
+				// a back edge that IS the "no certificate" edge is the allowed skip
+				allowed := true
+				for si, sc := range pr.Succs {
+					if sc == hdr && !cut[engine.Edge{From: pr, Succ: si}] {
+						allowed = false
+					}
+				}
+				if !allowed {
+					okEvery = false
+				}
 			}
 		}
 	}
-	r.Check(okEvery, "C08-R3", "applyFork|every iteration writes the certificate", p.InstrPos(wc[0]), "on every loop path", "an iteration can skip the certificate")
+	r.Check(okEvery, "C08-R3", "applyFork|every iteration writes the certificate", p.InstrPos(wc[0]), "on every loop path (skipped only for a bundle without a certificate)", "an iteration can skip a certificate the bundle carries")
 	// success returns ResetTo's transactions
 	okRet := false
 	for _, ret := range successReturns(af) {
